@@ -12,7 +12,7 @@ for d in seeded/C*-[AB]; do
   grep -q '"confirmed": true' $d/meta.json || { echo "$s unconfirmed" >> "$OUT"; continue; }
   if ! git -C /repo apply /verif/$d/patch.diff 2>/dev/null; then git -C /repo apply -3 /verif/$d/patch.diff 2>/dev/null || { echo "$s patch-failed" >> "$OUT"; git -C /repo checkout -- .; continue; }; fi
   res=$(bin/xkvlint -prop matrix -repo /repo 2>&1)
-  git -C /repo checkout -- . ; git -C /repo reset -q
+  git -C /repo reset -q --hard HEAD
   own=$(echo "$res" | grep "^$pid " | grep -v TOOL-FAILURE | head -3 | sed 's/^/    /')
   others=$(echo "$res" | grep -v "^$pid " | awk '{print $1}' | sort -u | paste -sd, )
   tf=$(echo "$res" | grep TOOL-FAILURE | head -2)
